@@ -8,6 +8,10 @@ import MidoProofs.TableTie
 #print axioms Mido.fixEot_last
 #print axioms Mido.C08_read_any
 #print axioms Mido.C08_clip_same_on_valid
+#print axioms Mido.C08_clip_keeps_strict
+#print axioms Mido.C08_clip_only_difference
+#print axioms Mido.C08_clip_message
+#print axioms Mido.C08_clip_sysex
 #print axioms Mido.C08_write_conforms
 #print axioms Mido.C08_roundtrip_via_spec
 #print axioms Mido.C08_writer_vlq
